@@ -369,5 +369,76 @@ def run_writers(tier, seed):
     return records
 
 
+def run_report_notice(tier="quick", seed=0):
+    """BOUNDED stand-in for the last sentence of C14 ("when no manifest can be updated the run still succeeds and the report says so"): the
+    real CLI with TWO codemods that need the same package on a project whose only manifest cannot be updated (pyproject.toml with dynamic
+    dependencies): exit 0, manifest byte-identical, and no result whose changesets do not contain the manifest may claim that the dependency
+    was added to it."""
+    import contextlib
+    import io
+    import logging
+    import re
+    from codemodder.codemodder import run
+    pyproject = ('[build-system]\nrequires = ["setuptools>=61"]\nbuild-backend = "setuptools.build_meta"\n\n[project]\nname = "p"\nversion = "0.1"\n'
+                 'dynamic = ["dependencies"]\n\n[tool.setuptools.dynamic]\ndependencies = {file = ["deps/runtime.in"]}\n')
+    code = ("import os\nimport requests\nfrom flask import Flask, request\n\napp = Flask(__name__)\n\n\n@app.route(\"/example\")\ndef example():\n"
+            "    url = request.args[\"url\"]\n    requests.get(url)\n    command = request.args[\"command\"]\n    return os.popen(command).read()\n")
+    issues = {"issues": [{"rule": "pythonsecurity:S5144", "status": "OPEN", "component": "code.py", "key": "A",
+                          "textRange": {"startLine": 11, "endLine": 11, "startOffset": 4, "endOffset": 21}},
+                         {"rule": "pythonsecurity:S2076", "status": "OPEN", "component": "code.py", "key": "B",
+                          "textRange": {"startLine": 13, "endLine": 13, "startOffset": 11, "endOffset": 28}}]}
+    claim = re.compile(r"automatically added this dependency to your project's `([^`]+)` file")
+    base = tempfile.mkdtemp(prefix="pyvc_c14n_")
+    evals, bad = 0, None
+    cwd = os.getcwd()
+    try:
+        os.chdir(base)
+        for order in (["sonar:python/url-sandbox", "sonar:python/sandbox-process-creation"],):
+            root = os.path.join(base, f"p{evals}")
+            os.makedirs(os.path.join(root, "deps"))
+            open(os.path.join(root, "pyproject.toml"), "w").write(pyproject)
+            open(os.path.join(root, "deps", "runtime.in"), "w").write("flask\nrequests\n")
+            open(os.path.join(root, "code.py"), "w").write(code)
+            ip = os.path.join(base, f"issues{evals}.json")
+            json.dump(issues, open(ip, "w"))
+            out = os.path.join(base, f"o{evals}.codetf")
+            rootlog = logging.getLogger()
+            for h in list(rootlog.handlers):
+                rootlog.removeHandler(h)
+            with contextlib.redirect_stdout(io.StringIO()), contextlib.redirect_stderr(io.StringIO()):
+                try:
+                    rc = run([root, "--output", out, "--sonar-issues-json", ip, "--codemod-include=" + ",".join(order)])
+                except BaseException as e:      # noqa
+                    rc = f"raised {type(e).__name__}: {e}"
+            evals += 1
+            w = None
+            if rc != 0:
+                w = {"clause": "the run still succeeds", "status": rc}
+            elif open(os.path.join(root, "pyproject.toml")).read() != pyproject:
+                w = {"clause": "a manifest that cannot be updated is left untouched"}
+            else:
+                rep = json.load(open(out))
+                fired = 0
+                for r in rep["results"]:
+                    paths = {cs["path"] for cs in r["changeset"]}
+                    fired += bool(paths)
+                    m = claim.search(r.get("description") or "")
+                    if m and m.group(1) not in {os.path.basename(p) for p in paths} and m.group(1) not in paths:
+                        w = {"clause": "the report does not claim a dependency was added to a file that was not changed", "codemod": r["codemod"],
+                             "claimed file": m.group(1), "changed files": sorted(paths)}
+                if w is None and fired < 2:
+                    w = {"clause": "vacuity guard: both codemods fire", "results with changes": fired}
+            if w is not None and bad is None:
+                bad = dict(w, codemods=order)
+    finally:
+        os.chdir(cwd)
+        shutil.rmtree(base, ignore_errors=True)
+    return {"kind": "bounded", "id": "bounded:the report says so when no manifest could be updated (two codemods needing one package)",
+            "status": "refuted" if bad else "discharged", "bound": "one project with an un-updatable pyproject.toml, two Sonar-driven codemods needing `security`",
+            "evaluations": evals, "witness": bad, "func": "codemodder.context.CodemodExecutionContext.process_dependencies",
+            "reason": "" if not bad else f"clause '{bad.get('clause')}' fails", "replay": {"reproduced": True, "detail": json.dumps(bad, default=str)} if bad else None,
+            "clause": "exit 0; manifest byte-identical; no description claims an update of a file outside the result's own changesets"}
+
+
 def extra_checks(tier="quick", seed=0):
-    return run_writers(tier, seed)
+    return run_writers(tier, seed) + [run_report_notice(tier, seed)]
